@@ -46,6 +46,8 @@ type c03prog struct {
 	Refuse bool
 	// RegFail: the first Register call of party RegFail-1 fails with a transient error (0: none)
 	RegFail int
+	// SubFinalByB: the sub-channel's final state is proposed by its second participant
+	SubFinalByB bool
 }
 
 func (p c03prog) name() string {
@@ -87,6 +89,9 @@ func (p c03prog) name() string {
 	}
 	if p.RegFail > 0 {
 		n += fmt.Sprintf("/regfail%d", p.RegFail-1)
+	}
+	if p.SubFinalByB {
+		n += "/finalbyB"
 	}
 	return n
 }
@@ -285,7 +290,11 @@ func c03exec(t *testing.T, ssc schedrun.Scenario, o vsched.Options) (*vsched.Sch
 						obs.errs = append(obs.errs, "sub payment: "+classify(err))
 					}
 				}
-				if err := sub0.Update(ctx, pay(0, 0, true)); err != nil {
+				fin := sub0
+				if pr.SubFinalByB {
+					fin = sub1
+				}
+				if err := fin.Update(ctx, pay(0, 0, true)); err != nil {
 					obs.errs = append(obs.errs, "sub final: "+classify(err))
 				}
 			}
@@ -442,6 +451,9 @@ func c03check(ssc schedrun.Scenario, s *vsched.Sched, o any) []schedrun.Verdict 
 	}
 	if pr.RegFail > 0 {
 		site += "/regfail"
+	}
+	if pr.SubFinalByB {
+		site += "/finalbyB"
 	}
 	var out []schedrun.Verdict
 	seen := map[string]bool{}
@@ -606,6 +618,10 @@ func c03programs(thorough bool) (all []c03prog, small []c03prog) {
 		}
 	}
 	all = append(all, c03prog{Bal: [2]int64{5, 5}, Final: false, Settle: "par", Sub: true, Refuse: true})
+	// the sub-channel is finalised by its second participant
+	for _, st := range []string{"AB", "par"} {
+		all = append(all, c03prog{Bal: [2]int64{5, 5}, Final: true, Settle: st, Sub: true, SubFinalByB: true})
+	}
 	// the second party settles inside the challenge period (refused by the ledger, repeated); a
 	// Register call that fails once
 	for _, seq := range [][]payStep{nil, {{0, 1, true}}} {
